@@ -132,6 +132,7 @@ def extract_closure(spec):
     list (closures do not spell their parameter types, and captured variables become parameters) is supplied by the
     template through a counted //@sub of __CLOSURE_PARAMS__.  Line numbers are those of the closure in the file."""
     _, f, sel, k, name = spec.split("|")
+    sel = sel.replace("~", " ")   # the source field of //@extract cannot contain blanks: `~` stands for one
     path = os.path.join(REPO, f)
     if not os.path.exists(path):
         raise Undecided("anchor lost: file %s missing" % f)
